@@ -58,6 +58,10 @@ func sameValueD(a, b ssa.Value, depth int) bool {
 	case *ssa.Field:
 		y, ok := b.(*ssa.Field)
 		return ok && x.Field == y.Field && sameValueD(x.X, y.X, depth+1)
+	case *ssa.FieldAddr:
+		// the address of the same field of the same object (a path through nested structs)
+		y, ok := b.(*ssa.FieldAddr)
+		return ok && x.Field == y.Field && sameValueD(x.X, y.X, depth+1)
 	}
 	return false
 }
@@ -214,6 +218,23 @@ func runP3(p *an.Prog, r *an.Result) {
 						r.OK(name, construct, ta.Pos(), "dominated by a successful checked assertion to the same type")
 						return
 					}
+				}
+			}
+			// asserting an interface under a type switch whose arms are types that implement it
+			if it2, isIface := ta.AssertedType.Underlying().(*types.Interface); isIface {
+				if an.AllPathsGuarded(ta.Block(), func(cond ssa.Value, taken bool) bool {
+					ex, ok := cond.(*ssa.Extract)
+					if !ok || ex.Index != 1 || !taken {
+						return false
+					}
+					t2, ok := ex.Tuple.(*ssa.TypeAssert)
+					if !ok || !sameValue(t2.X, ta.X) {
+						return false
+					}
+					return types.Implements(t2.AssertedType, it2)
+				}) {
+					r.OK(name, construct, ta.Pos(), "every path passed a successful type test of the same value for a type that implements the asserted interface")
+					return
 				}
 			}
 			r.Bad(name, construct, ta.Pos(), fmt.Sprintf("%s asserts %s without a type test on the same value; the operand can hold caller data (a reflect.Kind test does not establish the type: named types share kinds), so a binding of another type panics here", an.FuncName(fn), construct))
@@ -375,6 +396,10 @@ func runP4(p *an.Prog, r *an.Result) {
 					r.OK(name, construct, uc.Pos(), "dominated by a Kind()/IsValid() test of the same reflect.Value (the zero Value has Kind Invalid)")
 				case wrapperKindInvariant(p, arg):
 					r.OK(name, construct, uc.Pos(), "the argument is the value field of a container wrapper, which ValueOf constructs only for non-nil values of the matching kind (rule X7)")
+				case allCallSites(p, arg, func(a ssa.Value, at ssa.Instruction) bool {
+					return !an.IsInterface(a.Type()) || nonNilKnown(an.StripIface(a)) || wrapperKindInvariant(p, a) || guardedNonNil(at, a)
+				}):
+					r.OK(name, construct, uc.Pos(), "the argument is a parameter of an unexported function, non-nil at every call site (a container wrapper's value field, a statically non-nil value, or under a nil test)")
 				default:
 					what := "reflect.TypeOf(nil) is a nil Type"
 					if cn == "reflect.ValueOf" {
@@ -1739,4 +1764,36 @@ func guardedHelperResult(p *an.Prog, v ssa.Value, at ssa.Instruction) *helperRes
 		}
 	})
 	return h
+}
+
+// allCallSites: v is a parameter of an unexported module function (not used as a value) and pred
+// holds for the corresponding argument at every call site.
+func allCallSites(p *an.Prog, v ssa.Value, pred func(arg ssa.Value, at ssa.Instruction) bool) bool {
+	par, ok := an.Deref(v).(*ssa.Parameter)
+	if !ok {
+		par, ok = v.(*ssa.Parameter)
+		if !ok {
+			return false
+		}
+	}
+	fn := par.Parent()
+	if fn == nil || fn.Object() == nil || fn.Object().Exported() {
+		return false
+	}
+	idx := -1
+	for i, fp := range fn.Params {
+		if fp == par {
+			idx = i
+		}
+	}
+	sites := callSitesOf(p, fn)
+	if idx < 0 || len(sites) == 0 {
+		return false
+	}
+	for _, cs := range sites {
+		if idx >= len(cs.Call.Args) || !pred(cs.Call.Args[idx], cs) {
+			return false
+		}
+	}
+	return true
 }
